@@ -185,6 +185,12 @@ partial def parseInstr : SExp → Option Instr
     some (.param name s b)
   | .list [.atom "applyimports"] => some .applyImports
   | .list (.atom "usesets" :: names) => (names.mapM atomStr).map .useSets
+  | .list [.atom "number", e, .atom lvl, .list pats, .atom f, .list fr] => do
+    let v ← optExpr e
+    let ps ← pats.mapM parseExpr
+    let fmt ← decodeStr f
+    let fs ← fr.mapM parseExpr
+    some (.number v lvl ps fmt fs)
   | .list [.atom "number", e, .atom lvl, .list pats, .atom f] => do
     let v ← optExpr e
     let ps ← pats.mapM parseExpr
@@ -198,6 +204,15 @@ partial def parseInstr : SExp → Option Instr
   | _ => none
 
 def parseTemplate : SExp → Option Template
+  | .list [.atom "template", .list pats, name, mode, .atom prio, .atom prec, .atom low, .list body] => do
+    let ps ← pats.mapM parseExpr
+    let n ← optStr name
+    let m ← optStr mode
+    let pr ← if prio = "none" then some none else prio.toInt?.map some
+    let pc ← prec.toNat?
+    let lo ← low.toNat?
+    let b ← body.mapM parseInstr
+    some { pats := ps, name := n, mode := m, prio := pr, body := b, prec := pc, low := lo }
   | .list [.atom "template", .list pats, name, mode, .atom prio, .atom prec, .list body] => do
     let ps ← pats.mapM parseExpr
     let n ← optStr name
@@ -216,6 +231,12 @@ def parseTemplate : SExp → Option Template
   | _ => none
 
 def parseAttrSet : SExp → Option AttrSet
+  | .list [.atom "attrset", .atom n, .atom prec, .list uses, .list body] => do
+    let name ← decodeStr n
+    let pc ← prec.toNat?
+    let us ← uses.mapM atomStr
+    let b ← body.mapM parseInstr
+    some { name := name, uses := us, body := b, prec := pc }
   | .list [.atom "attrset", .atom n, .list uses, .list body] => do
     let name ← decodeStr n
     let us ← uses.mapM atomStr
